@@ -5,6 +5,7 @@ import (
 	"time"
 
 	"github.com/ozontech/file.d/logger"
+	"github.com/ozontech/file.d/verifhook"
 	"go.uber.org/atomic"
 )
 
@@ -183,6 +184,7 @@ func (s *stream) tryUnblock() bool {
 	}
 
 	timeoutEvent := newTimeoutEvent(s)
+	verifhook.Point("stream.unblock")
 	s.last = timeoutEvent
 	s.first = timeoutEvent
 
